@@ -280,7 +280,13 @@ func execC09Bubble(r *kernel.Run, s C09Spec) {
 				r.Violate("C09:moved-backwards", det, "%s: same-index update moved witness backwards in time or index", step)
 				return
 			}
-			if a.Time > m.accTime {
+			if a.Time > m.accTime && before == after {
+				// the accumulator object this witness points at was refreshed through another witness or
+				// update object sharing it (one update object applied to several witnesses): nothing the
+				// property speaks about
+				r.Probe("refreshed-through-shared-object")
+			}
+			if a.Time > m.accTime && before != after {
 				r.Probe("same-index-refresh")
 				if w.Updated.Unix() != a.Time {
 					r.Violate("C09:updated-time-wrong", det, "%s: Updated=%d accumulator time=%d", step, w.Updated.Unix(), a.Time)
